@@ -96,6 +96,11 @@ def context_preserved(cfg, root):
                 return "no searched ancestor found"
         if p is None:
             return "node is not below the node whose value the decoder searched"
+        # decoder-supplied children stay where the decoder put them (relative to the hit's own value)
+        for kid, kspec in zip(node.children, spec.children):
+            kc = band(kid.start == kspec.start, kid.end == kspec.end)
+            checks.append((kid, spec, kid.start, kc))
+            conj = conj & kc
         c = band(total == spec.start, node.end - node.start == spec.end - spec.start,
                  node.parent.value[node.start:node.end].lower() == AV(spec.tid, spec.start, spec.end, 0).lower())
         checks.append((node, spec, total, c))
